@@ -269,6 +269,7 @@ fn values<T: Flt>(thorough: bool) -> Vec<u64> {
             }
         }
     }
+    v.extend(harness::valfam::break_values::<T>());
     v.sort_unstable();
     v.dedup();
     v.retain(|&b| b != 0);
